@@ -35,6 +35,10 @@ def random_round(rng, kind, allow_block=True):
         opts += "s"                         # ownership kept in the shared slot
     if fl == "l":
         opts += rng.choice(["", "", "f", "o"])   # wait() / force_wait() / ownership own(mx.lock())
+    if rel == "x" and "s" not in opts and rng.random() < 0.25:
+        opts += "r"                              # release() once more on the emptied ownership (no-op)
+    if fl == "k":
+        opts += rng.choice(["", "u"])            # subscribe(awaiter *) / await_suspend(resume_fn, ctx)
     return fl + rel + opts
 
 
@@ -75,12 +79,15 @@ def gen_random(rng, count, min_t=2, max_t=4, max_rounds=3):
 
 
 def gen_exhaustive_pairs(length=13, rounds=1):
+    """all schedules of the given length for every pair of contender shapes; pairs that involve a shape of the ownership layer
+    (shared slot, callback, hand-over-hand, move, blocking lock inside a coroutine) are enumerated two steps shorter"""
     cases = []
-    kinds = ([("sync", r) for r in ["lx", "ld", "tx", "kxs", "lgo", "lms"]] +
-             [("coro", r) for r in CORO_ROUNDS + ["lxf", "cg", "cas"]])
-    for a, b in itertools.combinations_with_replacement(kinds, 2):
+    old = [("sync", r) for r in ["lx", "ld", "tx"]] + [("coro", r) for r in CORO_ROUNDS]
+    new = [("sync", r) for r in ["kxs", "lgo", "lms", "kdu"]] + [("coro", r) for r in ["lxf", "cg", "cas"]]
+    for a, b in itertools.combinations_with_replacement(old + new, 2):
         threads = legalise(["t %s %s" % (a[0], " ".join([a[1]] * rounds)), "t %s %s" % (b[0], " ".join([b[1]] * rounds))])
-        for bits in itertools.product([0, 1], repeat=length):
+        n = length if (a in old and b in old) else max(4, length - 2)
+        for bits in itertools.product([0, 1], repeat=n):
             cases.append(make_case(threads, list(bits)))
     return cases
 
@@ -157,7 +164,8 @@ class MutexSuite(Suite):
         ACQ = {"l": "blocking lock", "t": "try_lock", "c": "co_await lock", "k": "callback awaiter"}
         REL = {"x": "release() discarded", "d": "destroyed / empty ownership assigned", "a": "co_await release()",
                "g": "hand-over-hand: aux mutex' ownership assigned over it", "m": "moved into a temporary"}
-        OPT = {"s": "ownership in the shared slot", "f": "force_wait() spelling", "o": "ownership(co_awaiter&&) spelling"}
+        OPT = {"s": "ownership in the shared slot", "f": "force_wait() spelling", "o": "ownership(co_awaiter&&) spelling",
+               "u": "callback through await_suspend(resume_fn, ctx)", "r": "release() repeated on the emptied ownership"}
         for c in cases:
             ths = c["lines"][1:-2]
             k = "%d contenders" % len(ths)
